@@ -89,29 +89,59 @@ def _direct_entry(fn):
     return {'params': ps, 'call': call}
 
 
-def perform_table(repo):
-    """ChannelList convenience methods that are `return self._multichannel_perform('<name>', params…)`"""
-    tree = ast.parse((repo / 'sc3/synth/ugen.py').read_text())
-    cl = next((n for n in tree.body if isinstance(n, ast.ClassDef) and n.name == 'ChannelList'), None)
-    if cl is None:
-        return None
-    out = []
-    for fn in cl.body:
+def _methods_of(cls):
+    """public instance methods of a class body: name -> (params, nreq, mode params, last statement)"""
+    out = {}
+    for fn in cls.body:
         if not isinstance(fn, ast.FunctionDef) or fn.name.startswith('_'):
+            continue
+        if any(isinstance(d, ast.Name) and d.id in ('classmethod', 'staticmethod', 'property') for d in fn.decorator_list):
             continue
         params = [x.arg for x in fn.args.args][1:]
         nd = len(fn.args.defaults)
-        body = fn.body[-1]
-        kind = 'other'
-        if isinstance(body, ast.Return) and isinstance(body.value, ast.Call):
-            c = body.value
-            if isinstance(c.func, ast.Attribute) and c.func.attr == '_multichannel_perform' \
-                    and c.args and isinstance(c.args[0], ast.Constant) and c.args[0].value == fn.name \
-                    and [getattr(x, 'id', None) for x in c.args[1:]] == params:
-                kind = 'perform'
         dflts = [None] * (len(params) - nd) + list(fn.args.defaults)
         mode = [p for p, d in zip(params, dflts) if isinstance(d, ast.Constant) and isinstance(d.value, str)]
-        out.append({'name': fn.name, 'params': params, 'nreq': len(params) - nd, 'kind': kind, 'mode_params': mode})
+        out[fn.name] = {'name': fn.name, 'params': params, 'nreq': len(params) - nd, 'mode_params': mode,
+                        'last': fn.body[-1]}
+    return out
+
+
+def perform_table(repo):
+    """The convenience methods a channel list must answer: EVERY public method a `UGen` channel
+    answers (class UGen of ugen.py, by ast), with the channel's own signature, plus the public methods
+    only `ChannelList` defines.  `kind` says how ChannelList implements it in the current source:
+    'perform' (plain `_multichannel_perform` forwarder), 'other' (own body), 'inherited' (no override in
+    ChannelList: AbstractObject/AbstractSequence), or 'documented-omission' (the ChannelList source says
+    `# <name> is not implemented`)."""
+    src = (repo / 'sc3/synth/ugen.py').read_text()
+    tree = ast.parse(src)
+    classes = {n.name: n for n in tree.body if isinstance(n, ast.ClassDef)}
+    cl, ug = classes.get('ChannelList'), classes.get('UGen')
+    if cl is None or ug is None:
+        return None
+    lines = src.splitlines()
+    region = '\n'.join(lines[cl.lineno - 1:cl.end_lineno])
+    omitted = set(re.findall(r'#\s*(\w+) is not implemented', region))
+    clm, ugm = _methods_of(cl), _methods_of(ug)
+    out = []
+    for name in list(ugm) + [n for n in clm if n not in ugm]:
+        m = dict(ugm.get(name) or clm[name])
+        kind = 'inherited'
+        if name in clm:
+            kind = 'other'
+            body = clm[name]['last']
+            if isinstance(body, ast.Return) and isinstance(body.value, ast.Call):
+                c = body.value
+                if isinstance(c.func, ast.Attribute) and c.func.attr == '_multichannel_perform' \
+                        and c.args and isinstance(c.args[0], ast.Constant) and c.args[0].value == name \
+                        and [getattr(x, 'id', None) for x in c.args[1:]] == clm[name]['params']:
+                    kind = 'perform'
+        elif name in omitted:
+            kind = 'documented-omission'
+        m.pop('last', None)
+        m['kind'] = kind
+        m['channel_method'] = name in ugm
+        out.append(m)
     return out
 
 
@@ -329,13 +359,18 @@ class Check(common.Check):
             b = {'c': I.items(self.g_list(rng, npre, 3, tuples=False))}
         return {'k': 'op', 'op': name, 'a': a, 'b': b, 'pre': pre}
 
+    # not element-wise by definition: dup (n references to the list), sum (fold), poll/dpoll (labels)
     METH_SPECIAL = ('dup', 'sum', 'poll', 'dpoll')
+
+    def meth_table(self):
+        return [m for m in self.tables()['perform'] if m['name'] not in self.METH_SPECIAL
+                and m['kind'] != 'documented-omission']
 
     def gen_meth(self, rng, entry=None):
         """every public ChannelList method of the source (signature by ast, whatever its body looks
         like) called with every parameter: all-args calls are the majority, mode-like parameters
         (default is a string or None) get strings / None / lists of them"""
-        tab = [m for m in self.tables()['perform'] if m['name'] not in self.METH_SPECIAL]
+        tab = self.meth_table()
         m = entry or rng.choice(tab)
         pre = [rng.choice(['ar', 'ar', 'kr']) for _ in range(rng.randint(1, 5))]
         npre = len(pre)
@@ -436,7 +471,7 @@ class Check(common.Check):
             for i in idx[:n * 4 // 10]:
                 cases.append(self.gen_ctor(rng, table[i]))
         # every ChannelList convenience method, every parameter, several times
-        mtab = [m for m in self.tables()['perform'] if m['name'] not in self.METH_SPECIAL]
+        mtab = self.meth_table()
         for _ in range(12 if self.tier == 'thorough' else 3):
             for m in mtab:
                 cases.append(self.gen_meth(rng, m))
@@ -822,7 +857,7 @@ class Check(common.Check):
         h['direct_delegators_exercised'] = len(classes)
         h['perform_methods_in_source'] = sum(1 for m in t['perform'] if m['kind'] == 'perform')
         h['channellist_methods_driven'] = ' '.join(sorted({c['name'] for c in cases if c['k'] == 'meth'}))
-        h['channellist_methods_not_plain_forwarders'] = ' '.join(m['name'] for m in t['perform'] if m['kind'] != 'perform')
+        h['channellist_methods_not_plain_forwarders'] = ' '.join(f"{m['name']}:{m['kind']}" for m in t['perform'] if m['kind'] != 'perform')
         h['direct_delegator_classes'] = ' '.join(sorted(f'{m}.{c}.{k}' for m, c, k in classes))
         return h
 
